@@ -116,6 +116,19 @@ def fit_case(case):
         model.set_params(**keep)
         if not hasattr(model, "tree_") or not hasattr(model, "labels_"):
             return {"v": [], "nt": [], "stats": {"evals": 1, "refused_refit_left_no_model": 1}}
+    transported = None
+    if n >= 2 and (n + d + len(repr(cfg))) % 3 != 0:
+        # the fitted estimator as scikit-learn's tooling hands it back (pickled from a worker, deep-copied in a pipeline): same tree, same answers
+        from mc import transport
+        transported = transport.pick((data_spec, repr(cfg), variant))
+        orig_pred = model.predict(X)
+        try:
+            model = transport.roundtrip(model, transported)
+        except Exception as e:  # noqa
+            return {"v": [violation("predict_does_not_reproduce_labels", {"after": transported, "error": repr(e)[:200]}, **where)], "stats": {"evals": 1}}
+        if not np.array_equal(model.predict(X), orig_pred):
+            return {"v": [violation("predict_does_not_reproduce_labels", {"after": transported, "what": "the copy predicts differently from the original"}, **where)],
+                    "stats": {"evals": 1}}
     t = model.tree_
     v = []
 
